@@ -5,6 +5,7 @@ package main
 
 import (
 	"fmt"
+	"go/token"
 	"go/types"
 	"sort"
 	"strings"
@@ -495,4 +496,760 @@ func ruleSwitchOnce(p *Program, r *Reporter) {
 		return
 	}
 	r.OkNT(key, p.Pos(fn.Pos()), fmt.Sprintf("%d compile call(s) on the subject, none inside a loop", n))
+}
+
+// ---------------------------------------------------------------------------
+// R-CHILDCOMPILED
+
+func init() {
+	register(&Rule{ID: "R-CHILDCOMPILED", Floor: 10, Run: ruleChildCompiled,
+		Text: "A single child of a syntax node (a condition, an operand, a subject, a body) that the compiler translates at all is translated on every path through the node's case that ends in success, unless the child is absent (tested against nil): its translation is where an invalid child is reported, so a path around it accepts a script part of which was never looked at."})
+}
+
+func ruleChildCompiled(p *Program, r *Reporter) {
+	a := needAnchors(p, r)
+	if a == nil {
+		return
+	}
+	fn := a.compile
+	if len(fn.Params) < 2 {
+		r.Undecided("compiler cases", p.Pos(fn.Pos()), "the compile function has no node parameter")
+		return
+	}
+	isCompile := func(ins ssa.Instruction) *ssa.CallCommon {
+		cc := callOf(ins)
+		if cc == nil || cc.StaticCallee() == nil || len(cc.Args) < 2 || !isASTish(cc.Args[1].Type()) {
+			return nil
+		}
+		if cc.StaticCallee() == a.compile || p.Reachable(cc.StaticCallee())[a.compile] {
+			return cc
+		}
+		return nil
+	}
+	strip := func(v ssa.Value) ssa.Value {
+		for {
+			switch x := v.(type) {
+			case *ssa.MakeInterface:
+				v = x.X
+			case *ssa.ChangeInterface:
+				v = x.X
+			default:
+				return v
+			}
+		}
+	}
+	n := 0
+	for _, b := range fn.Blocks {
+		for _, ins := range b.Instrs {
+			ta, ok := ins.(*ssa.TypeAssert)
+			if !ok || !ta.CommaOk || ta.X != ssa.Value(fn.Params[1]) {
+				continue
+			}
+			pt, ok := ta.AssertedType.(*types.Pointer)
+			if !ok || !isASTish(pt) {
+				continue
+			}
+			st, ok := pt.Elem().Underlying().(*types.Struct)
+			if !ok {
+				continue
+			}
+			var typed, okv ssa.Value
+			for _, ref := range *ta.Referrers() {
+				if ex, isEx := ref.(*ssa.Extract); isEx {
+					if ex.Index == 0 {
+						typed = ex
+					} else {
+						okv = ex
+					}
+				}
+			}
+			if typed == nil || okv == nil {
+				continue
+			}
+			var entry *ssa.BasicBlock
+			for _, ref := range *okv.Referrers() {
+				if iff, isIf := ref.(*ssa.If); isIf {
+					entry = iff.Block().Succs[0]
+				}
+			}
+			if entry == nil || len(entry.Preds) != 1 {
+				continue
+			}
+			tname := typeStr(pt)
+			for i := 0; i < st.NumFields(); i++ {
+				f := st.Field(i)
+				switch f.Type().Underlying().(type) {
+				case *types.Interface, *types.Pointer:
+				default:
+					continue
+				}
+				if !isASTish(f.Type()) {
+					continue
+				}
+				// loads of the field and the compile calls on them
+				isField := func(v ssa.Value) bool {
+					ld, ok := strip(v).(*ssa.UnOp)
+					if !ok || ld.Op != token.MUL {
+						return false
+					}
+					fa, ok := ld.X.(*ssa.FieldAddr)
+					return ok && fa.X == typed && fa.Field == i
+				}
+				callBlocks := map[*ssa.BasicBlock]bool{}
+				for _, rb := range fn.Blocks {
+					if !(rb == entry || entry.Dominates(rb)) {
+						continue
+					}
+					for _, in := range rb.Instrs {
+						if cc := isCompile(in); cc != nil && isField(cc.Args[1]) {
+							callBlocks[rb] = true
+						}
+					}
+				}
+				if len(callBlocks) == 0 {
+					continue
+				}
+				n++
+				key := fmt.Sprintf("compile/case %s/child %s is translated on every successful path", tname, f.Name())
+				bad := token.NoPos
+				seen := map[*ssa.BasicBlock]bool{}
+				var walk func(bl *ssa.BasicBlock)
+				walk = func(bl *ssa.BasicBlock) {
+					if bad.IsValid() || seen[bl] {
+						return
+					}
+					seen[bl] = true
+					if callBlocks[bl] {
+						return
+					}
+					if ret, ok := terminator(bl).(*ssa.Return); ok {
+						if isSuccessReturn(ret) {
+							bad = ret.Pos()
+						}
+						return
+					}
+					var skip *ssa.BasicBlock
+					if iff, ok := terminator(bl).(*ssa.If); ok {
+						if bo, ok := iff.Cond.(*ssa.BinOp); ok && (bo.Op == token.EQL || bo.Op == token.NEQ) {
+							x, y := bo.X, bo.Y
+							if isNilConst(x) {
+								x, y = y, x
+							}
+							if isNilConst(y) && isField(x) {
+								skip = bl.Succs[0]
+								if bo.Op == token.NEQ {
+									skip = bl.Succs[1]
+								}
+							}
+						}
+					}
+					for _, sc := range bl.Succs {
+						if sc == skip {
+							continue
+						}
+						if !(sc == entry || entry.Dominates(sc)) {
+							// leaves the case without having been translated
+							bad = firstPos(sc)
+							if !bad.IsValid() {
+								bad = firstPos(bl)
+							}
+							return
+						}
+						walk(sc)
+					}
+				}
+				walk(entry)
+				if bad.IsValid() {
+					r.Fail(key, p.Pos(firstPos(entry)), fmt.Sprintf("the case translates the node's %s on some paths only: there is a successful path through the case on which it is never handed to the compiler (it is translated inside a loop over other children, which may have nothing to loop over), so an invalid %s is accepted there and silently dropped from the program", f.Name(), f.Name()))
+				} else {
+					r.OkNT(key, p.Pos(firstPos(entry)), "every successful path passes the translation, or the child is absent")
+				}
+			}
+		}
+	}
+	if n == 0 {
+		r.Undecided("compiler cases", p.Pos(fn.Pos()), "no single-child translation found in the compiler's cases")
+	}
+}
+
+// ---------------------------------------------------------------------------
+// R-BODYRETURN
+
+func init() {
+	register(&Rule{ID: "R-BODYRETURN", Floor: 1, Run: ruleBodyReturn,
+		Text: "Between the translation of a function's body and the moment its bytecode is stored as the function, every path either emits a return instruction or has just seen that the last instruction emitted is one: a function's bytecode always ends in a return, whatever the shape of its body, so a call can never run off the end of the function (which the machine takes for a quiet null result)."})
+}
+
+func ruleBodyReturn(p *Program, r *Reporter) {
+	a := needAnchors(p, r)
+	if a == nil {
+		return
+	}
+	oc := p.Opcodes()
+	n := 0
+	for fn := range p.Reachable(a.compile) {
+		if fnPkg(fn) == nil || fnPkg(fn).Pkg.Path() != Mod {
+			continue
+		}
+		emits := map[ssa.Instruction]string{}
+		for _, es := range emitSites(p, a, fn) {
+			emits[es.call] = es.op
+		}
+		for _, b := range fn.Blocks {
+			for _, ins := range b.Instrs {
+				st, ok := ins.(*ssa.Store)
+				if !ok {
+					continue
+				}
+				owner, fld, ok := fieldOf(st.Addr)
+				if !ok || owner == nil || owner.Obj().Name() != "UserFunction" || !isNamed(st.Val.Type(), "code", "Instructions") {
+					continue
+				}
+				_ = fld
+				n++
+				key := fmt.Sprintf("%s/%s/the stored function ends in a return", p.FnName(fn), outerCase(p, fn, st.Pos()))
+				// walk back from the capture
+				bad := token.NoPos
+				seen := map[*ssa.BasicBlock]bool{}
+				var back func(bl *ssa.BasicBlock, from int)
+				back = func(bl *ssa.BasicBlock, from int) {
+					if bad.IsValid() {
+						return
+					}
+					for j := from; j >= 0; j-- {
+						in := bl.Instrs[j]
+						if op, ok := emits[in]; ok && op == "OpReturn" {
+							return
+						}
+						if c, ok := in.(*ssa.Call); ok && c.Call.StaticCallee() != nil && p.Reachable(c.Call.StaticCallee())[a.compile] && len(c.Call.Args) >= 2 && isASTish(c.Call.Args[1].Type()) {
+							bad = c.Pos()
+							return
+						}
+					}
+					if len(bl.Preds) == 0 {
+						bad = st.Pos()
+						return
+					}
+					for _, pd := range bl.Preds {
+						// did we come along the edge on which the last opcode is known to be a return?
+						if iff, ok := terminator(pd).(*ssa.If); ok {
+							if bo, ok := iff.Cond.(*ssa.BinOp); ok && (bo.Op == token.NEQ || bo.Op == token.EQL) {
+								x, y := bo.X, bo.Y
+								if _, isC := x.(*ssa.Const); isC {
+									x, y = y, x
+								}
+								if c, ok := x.(*ssa.Call); ok && c.Call.StaticCallee() != nil && isOpcodeType(c.Type()) && oc.ssaName(y) == "OpReturn" {
+									knownSide := pd.Succs[0]
+									if bo.Op == token.NEQ {
+										knownSide = pd.Succs[1]
+									}
+									if knownSide == bl && pd.Succs[0] != pd.Succs[1] {
+										// the test itself must follow the body: nothing to check before it
+										continue
+									}
+								}
+							}
+						}
+						if !seen[pd] {
+							seen[pd] = true
+							back(pd, len(pd.Instrs)-1)
+						}
+					}
+				}
+				idx := 0
+				for j, in := range b.Instrs {
+					if in == ins {
+						idx = j
+					}
+				}
+				back(b, idx-1)
+				if bad.IsValid() {
+					r.Fail(key, p.Pos(st.Pos()), "on some path from the translation of the body ("+p.Pos(bad)+") to this point no return instruction is emitted and the last instruction is not known to be one: the function's bytecode can end without a return — a body whose last statement is a switch without a default, say — and a call that reaches the end runs off the function")
+				} else {
+					r.OkNT(key, p.Pos(st.Pos()), "every path emits OpReturn or has tested that the last opcode is OpReturn")
+				}
+			}
+		}
+	}
+	if n == 0 {
+		r.Undecided("function bytecode capture", "-", "no store of a program into a UserFunction found in the compiler")
+	}
+}
+
+// ---------------------------------------------------------------------------
+// R-TABLEKEEP
+
+func init() {
+	register(&Rule{ID: "R-TABLEKEEP", Floor: 1, Run: ruleTableKeep,
+		Text: "Where the machine replaces its table of user-defined functions by a table it built itself (the optimizer rewrites every function's bytecode), the new table is filled by a loop over the old one whose every iteration stores the entry under the name it was found under: no function is lost or renamed on the way, so a call that works without the optimizer works with it."})
+}
+
+func ruleTableKeep(p *Program, r *Reporter) {
+	n := 0
+	for _, fn := range p.LibFns {
+		if fnPkg(fn).Pkg.Path() != Mod+"/vm" {
+			continue
+		}
+		for _, b := range fn.Blocks {
+			for _, ins := range b.Instrs {
+				st, ok := ins.(*ssa.Store)
+				if !ok || fieldKey(st.Addr) != "vm.VM.functions" {
+					continue
+				}
+				mk, ok := st.Val.(*ssa.MakeMap)
+				if !ok {
+					continue // the table it was given, or another field's
+				}
+				n++
+				key := p.FnName(fn) + "/the rebuilt function table keeps every function"
+				// the inserts into the new table
+				var ups []*ssa.MapUpdate
+				for _, ref := range *mk.Referrers() {
+					if mu, ok := ref.(*ssa.MapUpdate); ok && mu.Map == ssa.Value(mk) {
+						ups = append(ups, mu)
+					}
+				}
+				if len(ups) == 0 {
+					r.Fail(key, p.Pos(st.Pos()), "the machine's function table is replaced by a new map that nothing is ever put into: every call of a user-defined function fails")
+					continue
+				}
+				bad := ""
+				for _, mu := range ups {
+					// the loop: a header whose Next is over a map of the same type
+					var header *ssa.BasicBlock
+					var next *ssa.Next
+					for h := mu.Block(); h != nil; h = h.Idom() {
+						for _, in := range h.Instrs {
+							if nx, ok := in.(*ssa.Next); ok {
+								if rg, ok := nx.Iter.(*ssa.Range); ok && types.Identical(rg.X.Type().Underlying(), mk.Type().Underlying()) {
+									header, next = h, nx
+								}
+							}
+						}
+						if header != nil {
+							break
+						}
+					}
+					if header == nil {
+						bad = "an entry is put into the new table outside a loop over the old one"
+						continue
+					}
+					// key is the loop's key
+					keyOK := false
+					if ex, ok := mu.Key.(*ssa.Extract); ok && ex.Tuple == ssa.Value(next) && ex.Index == 1 {
+						keyOK = true
+					}
+					if !keyOK {
+						bad = "the entry is stored under a name that is not the one it was found under"
+					}
+					for _, pd := range header.Preds {
+						if header.Dominates(pd) && !(mu.Block() == pd || mu.Block().Dominates(pd)) {
+							bad = "an iteration of the loop over the old table can go on to the next function without storing this one in the new table (a continue, or a branch around the store): that function no longer exists for the optimized machine, and calling it fails with a does-not-exist error although it works without the optimizer"
+						}
+					}
+				}
+				if bad != "" {
+					r.Fail(key, p.Pos(st.Pos()), bad)
+				} else {
+					r.OkNT(key, p.Pos(st.Pos()), "every iteration over the old table stores the entry under its own name")
+				}
+			}
+		}
+	}
+	if n == 0 {
+		r.OkNT("the function table is not rebuilt", "-", "the machine keeps the table it was constructed with")
+	}
+}
+
+// ---------------------------------------------------------------------------
+// R-POOLOWNER
+
+func init() {
+	register(&Rule{ID: "R-POOLOWNER", Floor: 4, Run: rulePoolOwner,
+		Text: "The constant pool belongs to the compiler: the evaluator's pool is only emptied (Prepare) or extended by one value at its end (addConstant), no slot of either pool is ever assigned, and the machine's pool is the one it was constructed with — it is stored by the constructor alone. The compiler, the machine, Dump and the driver then index one and the same table, a reference that was valid when it was compiled stays valid, and a literal keeps denoting the value that was compiled for it."})
+}
+
+func rulePoolOwner(p *Program, r *Reporter) {
+	pools := map[string]bool{"evalfilter.Eval.constants": true, "vm.VM.constants": true}
+	isPoolLoad := func(v ssa.Value) (string, bool) {
+		ld, ok := v.(*ssa.UnOp)
+		if !ok || ld.Op != token.MUL {
+			return "", false
+		}
+		k := fieldKey(ld.X)
+		return k, pools[k]
+	}
+	found := map[string]int{}
+	nth := map[string]int{}
+	for _, fn := range p.LibFns {
+		for _, b := range fn.Blocks {
+			for _, ins := range b.Instrs {
+				st, ok := ins.(*ssa.Store)
+				if !ok {
+					continue
+				}
+				// a slot of a pool
+				if ia, ok := st.Addr.(*ssa.IndexAddr); ok {
+					if k, isPool := isPoolLoad(ia.X); isPool {
+						nth[p.FnName(fn)+k]++
+						r.Fail(fmt.Sprintf("%s/slot of %s assigned (%d)", p.FnName(fn), k, nth[p.FnName(fn)+k]), p.Pos(st.Pos()), "a slot of the constant pool is overwritten: the pool is de-duplicated, so the slot serves every occurrence of that literal in the script — in the main program and in every function — and all of them change value")
+					}
+					continue
+				}
+				k := fieldKey(st.Addr)
+				if !pools[k] {
+					continue
+				}
+				found[k]++
+				nth[p.FnName(fn)+k]++
+				key := fmt.Sprintf("%s/store %d to %s", p.FnName(fn), nth[p.FnName(fn)+k], k)
+				switch k {
+				case "vm.VM.constants":
+					// only in the constructor, from its parameter
+					_, fromParam := st.Val.(*ssa.Parameter)
+					if fn.Signature.Recv() == nil && fromParam {
+						r.OkNT(key, p.Pos(st.Pos()), "the constructor stores the pool it was given")
+					} else {
+						r.Fail(key, p.Pos(st.Pos()), "the machine replaces or grows its constant pool: the evaluator's own pool — which Dump and the driver index with the operands found in the program, outside any recover — does not change with it, so a reference the machine made is out of range there")
+					}
+				default:
+					if c, isApp := isBuiltinCall(st.Val, "append"); isApp {
+						src, isPool := isPoolLoad(c.Call.Args[0])
+						one := false
+						if sl, ok := c.Call.Args[1].(*ssa.Slice); ok {
+							if al, ok := sl.X.(*ssa.Alloc); ok {
+								if at, ok := deref(al.Type()).Underlying().(*types.Array); ok && at.Len() == 1 {
+									one = true
+								}
+							}
+						}
+						if isPool && src == k && one {
+							r.OkNT(key, p.Pos(st.Pos()), "one value appended at the end")
+							continue
+						}
+					}
+					if mk, ok := st.Val.(*ssa.MakeSlice); ok {
+						if n, isC := constInt(mk.Len); isC && n == 0 {
+							r.OkNT(key, p.Pos(st.Pos()), "the pool is emptied")
+							continue
+						}
+					}
+					if sl, ok := st.Val.(*ssa.Slice); ok {
+						if al, ok := sl.X.(*ssa.Alloc); ok {
+							if at, ok := deref(al.Type()).Underlying().(*types.Array); ok && at.Len() == 0 {
+								r.OkNT(key, p.Pos(st.Pos()), "the pool is emptied")
+								continue
+							}
+						}
+					}
+					if isNilConst(st.Val) {
+						r.OkNT(key, p.Pos(st.Pos()), "the pool is emptied")
+						continue
+					}
+					r.Fail(key, p.Pos(st.Pos()), "the evaluator's constant pool is assigned something other than itself plus one value, or empty: indexes handed out earlier no longer name the constants they were compiled for")
+				}
+			}
+		}
+	}
+	for k := range pools {
+		if found[k] == 0 {
+			r.Undecided("stores to "+k, "-", "no store to the pool field found (renamed or restructured)")
+		} else {
+			r.OkNT("no slot of "+k+" is assigned", "-", "no indexed store into the pool in library code")
+		}
+	}
+}
+
+// ---------------------------------------------------------------------------
+// R-REFLECTKIND
+
+func init() {
+	register(&Rule{ID: "R-REFLECTKIND", Floor: 8, Run: ruleReflectKind,
+		Text: "In the conversion of host values, every reflect.Value accessor that panics on the wrong kind (Elem, Int, Uint, Float, Bool, MapKeys, MapIndex, Len, Index) is reached only on paths on which the value's Kind() has been compared with a kind the accessor accepts — in the function itself or at every call site that passes the value in — and Interface() only where CanInterface() held or the value is a map key. One field the engine cannot handle then yields null for that field instead of failing the lookup of every other field of the object."})
+}
+
+var reflectNeeds = map[string][]string{
+	"Elem": {"Interface", "Ptr", "Pointer"}, "Int": {"Int", "Int8", "Int16", "Int32", "Int64"},
+	"Uint":  {"Uint", "Uint8", "Uint16", "Uint32", "Uint64", "Uintptr"},
+	"Float": {"Float32", "Float64"}, "Bool": {"Bool"},
+	"MapKeys": {"Map"}, "MapIndex": {"Map"}, "MapRange": {"Map"},
+	"Len":   {"Array", "Chan", "Map", "Slice", "String"},
+	"Index": {"Array", "Slice", "String"},
+}
+
+// kindName: the name of a reflect.Kind constant value.
+func kindName(v ssa.Value) string {
+	c, ok := v.(*ssa.Const)
+	if !ok || c.Value == nil || !isStdNamed(c.Type(), "reflect", "Kind") {
+		return ""
+	}
+	n, ok := constInt(c)
+	if !ok {
+		return ""
+	}
+	names := []string{"Invalid", "Bool", "Int", "Int8", "Int16", "Int32", "Int64", "Uint", "Uint8", "Uint16", "Uint32", "Uint64", "Uintptr", "Float32", "Float64", "Complex64", "Complex128", "Array", "Chan", "Func", "Interface", "Map", "Pointer", "Slice", "String", "Struct", "UnsafePointer"}
+	if n >= 0 && int(n) < len(names) {
+		return names[n]
+	}
+	return ""
+}
+
+// kindsAt computes, for every block of fn, the set of kinds the value v is
+// known to have there (nil = nothing known).  entry seeds the entry block.
+func kindsAt(fn *ssa.Function, v ssa.Value, entry map[string]bool) map[*ssa.BasicBlock]map[string]bool {
+	isKindOf := func(x ssa.Value) bool {
+		c, ok := x.(*ssa.Call)
+		return ok && c.Call.StaticCallee() != nil && c.Call.StaticCallee().String() == "(reflect.Value).Kind" && len(c.Call.Args) == 1 && c.Call.Args[0] == v
+	}
+	out := map[*ssa.BasicBlock]map[string]bool{}
+	visited := map[*ssa.BasicBlock]bool{}
+	if len(fn.Blocks) == 0 {
+		return out
+	}
+	out[fn.Blocks[0]] = entry
+	visited[fn.Blocks[0]] = true
+	union := func(a, b map[string]bool) map[string]bool {
+		if a == nil || b == nil {
+			return nil
+		}
+		u := map[string]bool{}
+		for k := range a {
+			u[k] = true
+		}
+		for k := range b {
+			u[k] = true
+		}
+		return u
+	}
+	same := func(a, b map[string]bool) bool {
+		if (a == nil) != (b == nil) || len(a) != len(b) {
+			return false
+		}
+		for k := range a {
+			if !b[k] {
+				return false
+			}
+		}
+		return true
+	}
+	for changed, it := true, 0; changed && it < 100; it++ {
+		changed = false
+		for _, b := range fn.Blocks {
+			if b == fn.Blocks[0] {
+				continue
+			}
+			var acc map[string]bool
+			first := true
+			for _, pd := range b.Preds {
+				if !visited[pd] {
+					continue
+				}
+				f := out[pd]
+				if iff, ok := terminator(pd).(*ssa.If); ok && pd.Succs[0] != pd.Succs[1] {
+					if bo, ok := iff.Cond.(*ssa.BinOp); ok && bo.Op == token.EQL && pd.Succs[0] == b {
+						if k := kindName(bo.Y); k != "" && isKindOf(bo.X) {
+							f = map[string]bool{k: true}
+						} else if k := kindName(bo.X); k != "" && isKindOf(bo.Y) {
+							f = map[string]bool{k: true}
+						}
+					}
+				}
+				if first {
+					acc, first = f, false
+				} else {
+					acc = union(acc, f)
+				}
+			}
+			if first {
+				continue
+			}
+			if !visited[b] || !same(out[b], acc) {
+				visited[b] = true
+				out[b] = acc
+				changed = true
+			}
+		}
+	}
+	return out
+}
+
+func ruleReflectKind(p *Program, r *Reporter) {
+	// the conversion functions: everything of package vm that takes or produces reflect.Value
+	var fns []*ssa.Function
+	for _, fn := range p.LibFns {
+		if fnPkg(fn).Pkg.Path() != Mod+"/vm" {
+			continue
+		}
+		uses := false
+		for _, b := range fn.Blocks {
+			for _, ins := range b.Instrs {
+				if c, ok := ins.(*ssa.Call); ok && c.Call.StaticCallee() != nil && strings.HasPrefix(c.Call.StaticCallee().String(), "(reflect.Value).") {
+					uses = true
+				}
+			}
+		}
+		if uses {
+			fns = append(fns, fn)
+		}
+	}
+	sort.Slice(fns, func(i, j int) bool { return p.FnName(fns[i]) < p.FnName(fns[j]) })
+	n := 0
+	for _, fn := range fns {
+		cache := map[ssa.Value]map[*ssa.BasicBlock]map[string]bool{}
+		nth := map[string]int{}
+		for _, b := range fn.Blocks {
+			for _, ins := range b.Instrs {
+				if ta, isTA := ins.(*ssa.TypeAssert); isTA && isObjectIface(ta.X.Type()) {
+					// a converted member is asserted to be something more specific
+					n++
+					nth["assert"]++
+					key := fmt.Sprintf("%s/assertion %d on a converted member is tested", p.FnName(fn), nth["assert"])
+					if ta.CommaOk {
+						r.OkNT(key, p.Pos(ta.Pos()), "comma-ok assertion to "+typeStr(ta.AssertedType))
+					} else {
+						r.Fail(key, p.Pos(ta.Pos()), "the assertion to "+typeStr(ta.AssertedType)+" panics for a member that converts to something else (a map keyed by bool or by a struct gives keys that are not hashable), and the panic aborts the conversion of the whole object: no field of it can be read any more")
+					}
+					continue
+				}
+				c, ok := ins.(*ssa.Call)
+				if !ok || c.Call.StaticCallee() == nil || !strings.HasPrefix(c.Call.StaticCallee().String(), "(reflect.Value).") {
+					continue
+				}
+				m := c.Call.StaticCallee().Name()
+				recv := c.Call.Args[0]
+				if m == "Interface" {
+					n++
+					nth[m]++
+					key := fmt.Sprintf("%s/Interface() %d is applied to a value that may be looked at", p.FnName(fn), nth[m])
+					if canInterfaceGuarded(recv, c) || fromValueOf(recv, 0) {
+						r.OkNT(key, p.Pos(c.Pos()), "guarded by CanInterface(), or obtained from reflect.ValueOf without passing through a struct field")
+					} else {
+						r.Fail(key, p.Pos(c.Pos()), "Interface() panics for a value obtained from an unexported struct field, and nothing has asked CanInterface(): one unexported field of struct, slice, pointer or func kind (a sync.Mutex, or a []string, say) fails every lookup on the object, including the fields that could be converted")
+					}
+					continue
+				}
+				need, tracked := reflectNeeds[m]
+				if !tracked {
+					continue
+				}
+				n++
+				nth[m]++
+				key := fmt.Sprintf("%s/%s() %d is reached only for a kind it accepts", p.FnName(fn), m, nth[m])
+				if _, ok := cache[recv]; !ok {
+					cache[recv] = kindsAt(fn, recv, entryKinds(p, fn, recv))
+				}
+				got := cache[recv][b]
+				okAll := got != nil && len(got) > 0
+				for k := range got {
+					found := false
+					for _, w := range need {
+						if w == k {
+							found = true
+						}
+					}
+					if !found {
+						okAll = false
+					}
+				}
+				if okAll {
+					var ks []string
+					for k := range got {
+						ks = append(ks, k)
+					}
+					sort.Strings(ks)
+					r.OkNT(key, p.Pos(c.Pos()), "kind is "+strings.Join(ks, "/")+" here")
+				} else {
+					r.Fail(key, p.Pos(c.Pos()), fmt.Sprintf("%s() panics unless the value's kind is one of %s, and on some path to this call the kind has not been established: a map[string]string member (not an interface) makes Elem() panic, and the panic aborts the conversion of the whole object — `return Name;` fails because an unrelated Labels field could not be converted", m, strings.Join(need, ", ")))
+				}
+			}
+		}
+	}
+	if n == 0 {
+		r.Undecided("reflection accessors", "-", "no kind-sensitive reflect.Value call found in package vm")
+	}
+}
+
+// entryKinds: when v is a parameter, the kinds established at every call site.
+func entryKinds(p *Program, fn *ssa.Function, v ssa.Value) map[string]bool {
+	prm, ok := v.(*ssa.Parameter)
+	if !ok {
+		return nil
+	}
+	idx := -1
+	for i, q := range fn.Params {
+		if q == prm {
+			idx = i
+		}
+	}
+	var acc map[string]bool
+	sites := 0
+	for _, caller := range p.LibFns {
+		for _, c := range callsTo(caller, fn) {
+			sites++
+			arg := c.Common().Args[idx]
+			ks := kindsAt(caller, arg, nil)[c.Block()]
+			if ks == nil {
+				return nil
+			}
+			if acc == nil {
+				acc = map[string]bool{}
+			}
+			for k := range ks {
+				acc[k] = true
+			}
+		}
+	}
+	if sites == 0 {
+		return nil
+	}
+	return acc
+}
+
+func canInterfaceGuarded(v ssa.Value, at ssa.Instruction) bool {
+	for cur := at.Block(); cur.Idom() != nil; cur = cur.Idom() {
+		d := cur.Idom()
+		iff, ok := terminator(d).(*ssa.If)
+		if !ok {
+			continue
+		}
+		c, ok := iff.Cond.(*ssa.Call)
+		if !ok || c.Call.StaticCallee() == nil || c.Call.StaticCallee().String() != "(reflect.Value).CanInterface" || c.Call.Args[0] != v {
+			continue
+		}
+		if d.Succs[0] == at.Block() || d.Succs[0].Dominates(at.Block()) {
+			return true
+		}
+	}
+	return false
+}
+
+// fromValueOf: v was obtained from reflect.ValueOf(x) by MapKeys, Index,
+// MapIndex, Elem or Indirect alone — never through a struct field, so it is
+// not marked read-only and Interface() may be called on it.  (A member of a
+// slice or map that was itself read from an unexported field inherits the
+// mark: being a member is not enough.)
+func fromValueOf(v ssa.Value, depth int) bool {
+	if depth > 6 {
+		return false
+	}
+	switch x := v.(type) {
+	case *ssa.UnOp:
+		if ia, ok := x.X.(*ssa.IndexAddr); ok && x.Op == token.MUL {
+			return fromValueOf(ia.X, depth+1)
+		}
+	case *ssa.Call:
+		cal := x.Call.StaticCallee()
+		if cal == nil {
+			return false
+		}
+		switch cal.String() {
+		case "reflect.ValueOf":
+			return true
+		case "reflect.Indirect":
+			return fromValueOf(x.Call.Args[0], depth+1)
+		case "(reflect.Value).MapKeys", "(reflect.Value).Index", "(reflect.Value).MapIndex", "(reflect.Value).Elem":
+			return fromValueOf(x.Call.Args[0], depth+1)
+		}
+	}
+	return false
 }
